@@ -74,6 +74,7 @@ func runConfine(o *Options, sp *Specs, ev *Evidence) (int, *Evidence) {
 			return undecided(ev, "CONTRACT-MISMATCH "+c.Type+" is not a struct type")
 		}
 		types_ = append(types_, strings.TrimPrefix(c.Pkg, modRoot+"/")+"."+c.Type)
+		unclassified := map[string]*unclassifiedField{}
 		confined, shared := map[string]bool{}, map[string]bool{}
 		for _, f := range c.Confined {
 			confined[f] = true
@@ -85,9 +86,11 @@ func runConfine(o *Options, sp *Specs, ev *Evidence) (int, *Evidence) {
 		for i := 0; i < st.NumFields(); i++ {
 			f := st.Field(i).Name()
 			nOb++
-			if confined[f] == shared[f] {
-				violations = append(violations, fmt.Sprintf("%s.%s#confine:field %s is not classified as exactly one of confined / shared", c.Pkg, c.Type, f))
+			if confined[f] && shared[f] {
+				violations = append(violations, fmt.Sprintf("%s.%s#confine:field %s is classified both confined and shared", c.Pkg, c.Type, f))
 			} else {
+				// a field the block does not name (added after the contract was written) has to
+				// satisfy one of the two disciplines at all of its accesses (checked below)
 				nDis++
 			}
 		}
@@ -264,6 +267,30 @@ func runConfine(o *Options, sp *Specs, ev *Evidence) (int, *Evidence) {
 				name := fmt.Sprintf("%s.%s#confine:%s:in:%s", strings.TrimPrefix(c.Pkg, modRoot+"/"), c.Type, f, strings.TrimPrefix(where, strings.TrimPrefix(c.Pkg, modRoot+"/")+"."))
 				nOb++
 				bad := ""
+				if !confined[f] && !shared[f] {
+					asConfined, asShared := "", ""
+					if fromOthers[fi.key] {
+						asConfined = "accessed in " + where + ", which is reachable from a function outside the goroutine (API method)"
+					} else if !inGoroutine[fi.key] && !ctorPhase {
+						asConfined = "accessed in " + where + " outside the goroutine and the constructor phase"
+					}
+					if writes[sel] && !ctorPhase && !(inCtor[fi.key] && !inGoroutine[fi.key] && !fromOthers[fi.key]) {
+						asShared = "written in " + where + " after the goroutine may have started"
+					}
+					u := unclassified[f]
+					if u == nil {
+						u = &unclassifiedField{}
+						unclassified[f] = u
+					}
+					if asConfined != "" {
+						u.notConfined = append(u.notConfined, asConfined+" ("+pkg.Fset.Position(sel.Pos()).String()+")")
+					}
+					if asShared != "" {
+						u.notShared = append(u.notShared, asShared+" ("+pkg.Fset.Position(sel.Pos()).String()+")")
+					}
+					nDis++
+					return true
+				}
 				switch {
 				case confined[f]:
 					if fromOthers[fi.key] {
@@ -291,6 +318,21 @@ func runConfine(o *Options, sp *Specs, ev *Evidence) (int, *Evidence) {
 				violations = append(violations, name+": "+bad+" ("+pkg.Fset.Position(sel.Pos()).String()+")")
 				return true
 			})
+		}
+		var ufs []string
+		for f := range unclassified {
+			ufs = append(ufs, f)
+		}
+		sort.Strings(ufs)
+		for _, f := range ufs {
+			u := unclassified[f]
+			nOb++
+			if len(u.notConfined) == 0 || len(u.notShared) == 0 {
+				nDis++ // behaves as a confined field, or as a shared one
+				continue
+			}
+			violations = append(violations, fmt.Sprintf("%s.%s#confine:%s: field %s (not named in the confine block) is neither confined to the goroutine - %s - nor immutable once goroutines exist - %s",
+				strings.TrimPrefix(c.Pkg, modRoot+"/"), c.Type, f, f, u.notConfined[0], u.notShared[0]))
 		}
 	}
 	ev.Coverage["obligations"] = nOb
@@ -323,6 +365,13 @@ func runConfine(o *Options, sp *Specs, ev *Evidence) (int, *Evidence) {
 	}
 	fmt.Printf("CONFINE-OK property=C20 confinement obligations=%d discharged=%d types=%d\n", nOb, nDis, len(types_))
 	return 0, ev
+}
+
+// unclassifiedField collects, for a struct field the confine block does not name, the accesses
+// that break the confined discipline and those that break the shared one.
+type unclassifiedField struct {
+	notConfined []string
+	notShared   []string
 }
 
 func reachExcept(prog *Program, roots []string, stop map[string]bool, callees func(*FuncInfo, token.Pos) []string) map[string]bool {
